@@ -97,12 +97,7 @@ def showFRet : FRet Val → String
   | .decline => "nil"
   | .fail r => "e" ++ (if r then "1" else "0")
 
-/-- Which memberlist rule the tree under test has: `false` = the code as it is (no version test when
-`casVersion == 0`, finding D4); set to `true` once the repair (`cas && curr.Version != casVersion`)
-is applied — then `ml_cas_chain_fixed` is the theorem that applies and the known finding goes away. -/
-def mlStrictNow : Bool := false
-
-def cfgOf (sp : Spec) : Cfg Val := { budget := sp.budget, sbudget := 10, merge := Val.merge, mlStrict := mlStrictNow }
+def cfgOf (sp : Spec) : Cfg Val := { budget := sp.budget, sbudget := 10, merge := Val.merge }
 
 /-- initial system: the harness writes the initial values with one uncontended CAS on the primary. -/
 def initSys (sp : Spec) : Sys Val :=
